@@ -25,6 +25,7 @@ var sigma = map[string]proj.Day{
 	"calm-dark":     {Tmin: 4, Tavg: 6, Tmax: 8, Precip: 0, Rad: 0, Wind: 0.1, RH: 95, Sun: 2, ET0: 0.3},
 	"no-sun-no-rad": {Tmin: 4, Tavg: 6, Tmax: 8, Precip: 0, Rad: 0, Wind: 1, RH: 95, Sun: 0, ET0: 0.3},
 	"mild":          {Tmin: 6, Tavg: 10, Tmax: 14, Precip: 1, Rad: 10, Wind: 2.5, RH: 75, Sun: 5, ET0: 1.5},
+	"hot-shower":    {Tmin: 18, Tavg: 26, Tmax: 34, Precip: 2.5, Rad: 26, Wind: 5, RH: 35, Sun: 12, ET0: 8},
 	"grow":          {Tmin: 10, Tavg: 16, Tmax: 22, Precip: 3, Rad: 18, Wind: 2, RH: 70, Sun: 8, ET0: 3},
 }
 
@@ -71,6 +72,7 @@ type e1Base struct {
 	Leach     int     `json:"leach"` // leaching depth, 0 = profile bottom
 	Start     string  `json:"start,omitempty"`
 	Hor       []proj.Horizon `json:"hor,omitempty"` // explicit profile instead of a catalogue soil
+	InitVol   []float64      `json:"init_vol,omitempty"` // initial water as volumetric fraction per 30 cm band (measurement mode 3) instead of InitW
 }
 
 func (b e1Base) horizons() []proj.Horizon {
@@ -106,6 +108,10 @@ func e1Project(b e1Base, ndays int) *proj.Project {
 	for i := range p.Meas.Water {
 		p.Meas.Water[i] = b.InitW
 		p.Meas.Nmin[i] = b.InitN
+		if len(b.InitVol) > 0 {
+			p.Meas.Mode = 3
+			p.Meas.Water[i] = b.InitVol[min(i, len(b.InitVol)-1)]
+		}
 	}
 	if b.Crop != "" {
 		p.Rotation = append(p.Rotation, proj.CropEntry{Crop: b.Crop, Sow: iso(2), Harvest: iso(ndays + 200), Rex: 0})
